@@ -237,6 +237,39 @@ def rewriteFlags (stateless applyToAll : Bool) : Nat → Bool → List Bool
     let a := nonceApplies stateless applied applyToAll
     a :: rewriteFlags stateless applyToAll n (applied || a)
 
+/-- what `newNonceTo` does to the fresh random nonce, by `noncePattern.GetType()` -/
+inductive NonceAction where
+  | none        -- left random (type RANDOM / unknown, or the pattern was not applied)
+  | printable   -- `nonceRewriteLen` + `common.ToPrintableChar`
+  | subset      -- `nonceRewriteLen` + `common.ToCommon64Set`
+  | fixed       -- copy of one decoded custom hex string
+deriving DecidableEq, Repr
+
+def actionOfType (ty : Int) : NonceAction :=
+  if ty = 1 then .printable else if ty = 2 then .subset else if ty = 3 then .fixed else .none
+
+/-- outcome of one `newNonceTo` call -/
+structure NonceStep where
+  reached : Bool          -- the type switch was reached (the pattern was applied to this nonce)
+  action : NonceAction
+  applied : Bool          -- `noncePatternApplied` afterwards
+deriving DecidableEq, Repr
+
+/-- `newNonceTo` as a decision function.  `pat = none`: `c.noncePattern == nil` — the code returns BEFORE the
+    skip test and never sets `noncePatternApplied`; `some (type, applyToAllUDPPacket)` otherwise. -/
+def newNonceStep (pat : Option (Int × Bool)) (stateless applied : Bool) : NonceStep :=
+  match pat with
+  | none => ⟨false, .none, applied⟩
+  | some (ty, all) =>
+    if nonceApplies stateless applied all then ⟨true, actionOfType ty, true⟩ else ⟨false, .none, applied⟩
+
+/-- the `reached` flags of `n` successive `newNonceTo` calls on one cipher object -/
+def stepFlags (pat : Option (Int × Bool)) (stateless : Bool) : Nat → Bool → List Bool
+  | 0, _ => []
+  | n + 1, applied =>
+    let r := newNonceStep pat stateless applied
+    r.reached :: stepFlags pat stateless n r.applied
+
 /-! ## Low-entropy send decision (pkg/protocol/session.go, low_entropy.go) -/
 
 /-- `extractLowEntropyConfig` -/
